@@ -15,10 +15,11 @@ CONSTANTS MaxLen,      \* inputs: ordered lists of distinct vocabulary names up 
           Fixes
 
 Fix(f) == f \in Fixes
-Disp      == IF Table = "T2" THEN Disp_T2 ELSE Disp_T3
-DispOrder == IF Table = "T2" THEN DispOrder_T2 ELSE DispOrder_T3
-Required  == IF ReqName = "CSV" THEN Req_CSV ELSE Req_GEFF
-StdFields == Required \o <<"seg_id">>
+Disp      == IF Table = "T2" THEN Disp_T2 ELSE IF Table = "T3" THEN Disp_T3 ELSE Disp_TE
+Required  == IF ReqName = "CSV" THEN Req_CSV ELSE IF ReqName = "GEFF" THEN Req_GEFF ELSE Req_EDGE
+\* nodes: required keys + seg_id; edges (infer_edge_name_map): the edge feature keys
+StdFields == IF ReqName = "EDGE" THEN Required ELSE Required \o <<"seg_id">>
+Names     == IF ReqName = "EDGE" THEN VocabE ELSE Vocab
 Cutoff(s) == s[1] * 10 >= 4 * s[2]                 \* ratio >= 0.4
 Better(a, b, sa, sb) == \/ sa[1] * sb[2] > sb[1] * sa[2]
                         \/ (sa[1] * sb[2] = sb[1] * sa[2] /\ Rank[a] > Rank[b])
@@ -106,7 +107,7 @@ MapOK(cols, m) == Partition(cols, m) /\ ExactKeys(cols, m)
 \* ---- design-level state machine: one stage per step ------------------------------------
 RECURSIVE Lists(_)
 Lists(n) == IF n = 0 THEN {<<>>}
-            ELSE LET S == Lists(n - 1) IN S \cup {Append(s, v) : s \in {x \in S : Len(x) = n - 1}, v \in Rng(Vocab)}
+            ELSE LET S == Lists(n - 1) IN S \cup {Append(s, v) : s \in {x \in S : Len(x) = n - 1}, v \in Rng(Names)}
 Distinct(s) == Cardinality(Rng(s)) = Len(s)
 VARIABLES cols, st, stage
 vars == <<cols, st, stage>>
